@@ -1,0 +1,91 @@
+//go:build verif
+// +build verif
+
+package txcache
+
+// Read-only accessors used by the runtime monitors in /verif (build tag "verif" only).
+// Nothing in this file changes the behaviour of the cache.
+
+// VerifTx describes one pooled transaction as seen by the monitors
+type VerifTx struct {
+	Hash     string
+	Sender   string
+	Nonce    uint64
+	GasPrice uint64
+	Size     int64
+}
+
+// VerifSender is the content of one per-sender list, read under the list mutex
+type VerifSender struct {
+	Sender     string
+	Txs        []VerifTx // list order (front to back)
+	TotalBytes int64     // the list's own byte counter
+}
+
+// VerifSnapshotData is a point-in-time view of the cache
+type VerifSnapshotData struct {
+	Senders           []VerifSender // every list reachable through the sender map
+	ByHash            []VerifTx     // every entry of the hash index
+	CountTx           uint64        // counter of the hash index
+	NumBytes          int64         // byte counter of the hash index
+	CountSenders      uint64        // counter of the sender map
+	SweepPending      int           // senders collected for sweeping and not swept yet (meaningful with the sweep lock held)
+	MaxTxsPerSender   uint32
+	MaxBytesPerSender uint32
+}
+
+// VerifLockSweep holds the sweeping mutex, so that an asynchronous sweep is not observed half-way
+func (cache *TxCache) VerifLockSweep() {
+	cache.sweepingMutex.Lock()
+}
+
+// VerifUnlockSweep releases the sweeping mutex
+func (cache *TxCache) VerifUnlockSweep() {
+	cache.sweepingMutex.Unlock()
+}
+
+// VerifSnapshot enumerates the sender lists (each under its own mutex), the hash index and the counters
+func (cache *TxCache) VerifSnapshot() VerifSnapshotData {
+	out := VerifSnapshotData{}
+
+	for _, key := range cache.txListBySender.backingMap.Keys() {
+		item, ok := cache.txListBySender.backingMap.Get(key)
+		if !ok {
+			continue
+		}
+		list := item.(*txListForSender)
+
+		list.mutex.RLock()
+		s := VerifSender{Sender: list.sender, TotalBytes: list.totalBytes.Get()}
+		for element := list.items.Front(); element != nil; element = element.Next() {
+			s.Txs = append(s.Txs, verifDescribe(element.Value.(*WrappedTransaction)))
+		}
+		list.mutex.RUnlock()
+
+		out.Senders = append(out.Senders, s)
+	}
+
+	cache.txByHash.backingMap.IterCb(func(key string, item interface{}) {
+		tx := verifDescribe(item.(*WrappedTransaction))
+		tx.Hash = key
+		out.ByHash = append(out.ByHash, tx)
+	})
+
+	out.CountTx = cache.txByHash.counter.GetUint64()
+	out.NumBytes = cache.txByHash.numBytes.Get()
+	out.CountSenders = cache.txListBySender.counter.GetUint64()
+	out.SweepPending = len(cache.sweepingListOfSenders)
+	out.MaxTxsPerSender = cache.txListBySender.senderConstraints.maxNumTxs
+	out.MaxBytesPerSender = cache.txListBySender.senderConstraints.maxNumBytes
+	return out
+}
+
+func verifDescribe(tx *WrappedTransaction) VerifTx {
+	return VerifTx{
+		Hash:     string(tx.TxHash),
+		Sender:   string(tx.Tx.GetSndAddr()),
+		Nonce:    tx.Tx.GetNonce(),
+		GasPrice: tx.Tx.GetGasPrice(),
+		Size:     tx.Size,
+	}
+}
